@@ -120,6 +120,8 @@ class Scenario(object):
         sh["vk"] = sk.verifying_key
         sh["vk2"] = ecdsa.VerifyingKey.from_public_point(lib.mk_jac(self.cfp, self.Qk2, self.zS, n), self.curve, self.hf)      # unscaled point, as a recovered key holds
         sh["Q2"] = lib.mk_jac(self.cfp, self.PQ2, self.zQ2, n, False)
+        if getattr(self, "warm_table", False):
+            sh["G"] * 2          # the table exists before the threads start
         # age the curve object: whatever per-curve bookkeeping exists has seen `age` distinct queries before the threads start
         for x_ in range(self.age):
             self.cfp.contains_point(x_, 1)
@@ -424,6 +426,8 @@ def shards(tier, seed):
     nst = 6 if q else 16
     for i in range(nst):
         out.append(("stores_%d" % i, dict(kind="stores", scenarios=6 if q else 40, maxpos=150, limit2=30 if q else 400, offset=i, stride=nst)))
+    for j, cn in enumerate(("NIST384p", "NIST521p", "NIST256p", "BRAINPOOLP320r1") if q else ("NIST384p", "NIST521p", "NIST256p", "BRAINPOOLP320r1", "BRAINPOOLP512r1", "SECP160r1", "NIST224p", "SECP256k1")):
+        out.append(("stores_prod_%s" % cn, dict(kind="stores_prod", cname=cn, scenarios=(2 if cn == "NIST521p" else 3) if q else 10, maxpos=(25 if cn == "NIST521p" else 40) if q else 150, offset=j, stride=3 if q else 1)))
     out.append(("child_stores", dict(kind="stores", scenarios=4 if q else 30, maxpos=150, limit2=20 if q else 300, offset=3, _pyopt="opt")))
     out.append(("child_random", dict(kind="random", scenarios=8 if q else 40, per=8 if q else 40, instr=True, _pyopt="opt+hashseed")))
     out.append(("prod_random", dict(kind="prod", cname="SECP112r2", scenarios=2 if q else 12, per=4 if q else 20)))
@@ -445,11 +449,33 @@ def run(ctx, name, kind, **kw):
     if kind == "free":
         return free_running(ctx, rng, kw["rounds"])
     hooks = S.LineHooks()
-    if kind == "stores":
+    if kind in ("stores", "stores_prod"):
         hooks.install(monitored_codes(), "STORES", lines=False)
     else:
         hooks.install(monitored_codes(), "ALL" if kw.get("instr") == "ALL" else (SHARED_ATTRS if kw.get("instr") else None))
     try:
+        if kind == "stores_prod":
+            # the same store-focused single-preemption enumeration on production curves of every size class (tables of 112..521 entries)
+            c = lib.BY_NAME[kw["cname"]]
+            dom = lib.dom_of(c)
+            # (first operation = the thread that is preempted once, second = the thread that then runs to completion)
+            prs = [("mul", "pickle"), ("pickle", "mul"), ("sign", "copy_vk"), ("verify", "pickle_vk"), ("mulS", "pickleS"), ("copy_vk", "sign"), ("sign", "deepcopy_sk"), ("pickle_vk", "verify"),
+                   ("mul", "rmul"), ("mul_add", "pickle"), ("to_affineG", "x"), ("x", "to_affineG"), ("scale", "xS"), ("xS", "scale"), ("precompute", "verify"), ("verify", "precompute"),
+                   ("deepcopy_sk", "sign"), ("pickle", "mul_add"), ("rmul", "pickle"), ("verify", "copy_vk")]
+            for (a, b) in prs[kw.get("offset", 0):: kw.get("stride", 1)][: kw["scenarios"]]:
+                sc = Scenario(rng, c, dom, 2)
+                sc.age = 0
+                sc.warm_table = True
+                sc.plans[0] = [(a, 3, sc.plans[0][0][2])]
+                sc.plans[1] = [(b, sc.plans[1][0][1], sc.plans[1][0][2])]
+
+                def run_once(delays):
+                    dec = S.delay_decider(delays)
+                    one_run(ctx, sc, dec, hooks, "schedule.stores_systematic", seen, check_every=10 ** 9, snapshot_every=10 ** 9)
+                    return min(dec.state["i"], kw["maxpos"])
+                for _d in S.enumerate_delays(run_once, 1, None, None):
+                    if ctx.expired():
+                        break
         if kind == "stores":
             # yield points ONLY at accesses to mutable shared state (every attribute/global/item store of the monitored code, and
             # every load of a name that is stored somewhere): few per operation, so EVERY single-preemption schedule of a pair of
@@ -479,7 +505,7 @@ def run(ctx, name, kind, **kw):
                 for _d in S.enumerate_delays(run_once, 2, kw["limit2"], rng):
                     if ctx.expired():
                         break
-        if kind == "stores":
+        if kind in ("stores", "stores_prod"):
             pass
         elif kind == "systematic":
             for _ in range(kw["scenarios"]):
